@@ -65,6 +65,50 @@ def callIt : CVal → CVal
   | .callable r => r
   | v => v
 
+/-- `str(x)` for the values whose text the model knows (`none` = not modelled: lists, callables, foreign objects) -/
+def pyStr : CVal → Option String
+  | .none => some "None"
+  | .str s => some s
+  | .int i => some (toString i)
+  | .bool b => some (if b then "True" else "False")
+  | .float r => some r
+  | _ => Option.none
+
+/-- a decimal number `mant / 10^scale` (what an interval text such as "10", "10.5", " 2 " spells) -/
+structure Dec where
+  mant : Int
+  scale : Nat
+deriving Repr, DecidableEq
+
+def isDigit (c : Char) : Bool := '0' ≤ c && c ≤ '9'
+
+/-- split at the first '.' -/
+def splitDot : List Char → Option (List Char × List Char)
+  | [] => Option.none
+  | c :: cs => if c == '.' then some ([], cs) else (splitDot cs).map (fun p => (c :: p.1, p.2))
+
+def digitsVal (cs : List Char) : Nat := cs.foldl (fun acc c => acc * 10 + (c.toNat - '0'.toNat)) 0
+
+/-- `float(text)` for plain decimal texts: optional white space, optional sign, digits with an optional fraction
+    (integer texts as `int()` reads them included).  `none` = not of that form (exponents, inf/nan are outside the
+    model: the generators do not send such texts to it). -/
+def parseDecimal (s : String) : Option Dec :=
+  match Py.parseInt s with
+  | some i => some ⟨i, 0⟩
+  | Option.none =>
+    let cs := (Py.strip s).toList
+    let (neg, body) := match cs with
+      | '-' :: r => (true, r)
+      | '+' :: r => (false, r)
+      | r => (false, r)
+    match splitDot body with
+    | Option.none => Option.none
+    | some (ip, fp) =>
+      if (ip.isEmpty && fp.isEmpty) || !(ip.all isDigit) || !(fp.all isDigit) then Option.none
+      else
+        let m : Int := (digitsVal ip * 10 ^ fp.length + digitsVal fp : Nat)
+        some ⟨if neg then -m else m, fp.length⟩
+
 /-- a list whose elements are all text -/
 def strList : List CVal → Option (List String)
   | [] => some []
